@@ -2,7 +2,7 @@
 # Developer tooling: the stored refactorings (must be silent) and the stored seeded changes (must be reported) checked in parallel on N scratch
 # worktrees of /repo's HEAD (created under /tmp, removed afterwards).  /repo's own working tree is not touched.
 # usage: parallel.sh [N]      output: /tmp/par_benign_K.log, /tmp/par_seeded_K.log
-N=${1:-4}
+N=${1:-14}
 cd /verif
 for k in $(seq 1 $N); do git -C /repo worktree remove --force /tmp/par$k 2>/dev/null; git -C /repo worktree add -q --detach /tmp/par$k HEAD; done
 b=($(ls benign | sort)); s=($(ls seeded | sort))
